@@ -790,6 +790,10 @@ def _dtag(axis, sign):
     return ("+" if sign > 0 else "-") + "xyz"[axis]
 
 
+def VIEWS_LAYOUT_ITEMS(it, tier):
+    return True
+
+
 def items(tier):
     q = tier == "quick"
     out = []
